@@ -9,6 +9,7 @@
  D6 the unconsumed residual is kept on the normal exit; nothing clears the buffer
  D7 every arrival of bytes leads to a framing attempt (no path from the append to the normal exit
     bypasses the loop)
+ D8 the value returned when no complete message was found does not make a caller close the connection
 """
 import ast, struct
 from .. import q, framing
@@ -35,8 +36,10 @@ def run (ctx):
       ctx.undecided('R-DOM', f, "framing roles", str(e), f, 'D2'); continue
     n_loops += 1
     _loop(ctx, repo, f, L)
+    _caller_contract(ctx, repo, f, L)
   ctx.floor('framing loops with roles assigned', n_loops, 2)
   _buffers(ctx, repo)
+  _decoder_table(ctx, repo)
 
 def _loop (ctx, repo, f, L):
   g = L.g; mod = f.module
@@ -185,6 +188,81 @@ def _loop (ctx, repo, f, L):
   else:
     rets = [n for n in g.nodes if n.kind == 'return' and n not in g.reachable(L.head)]
     ctx.ob('R-ORDER', f, "every invocation enters the framing loop", not rets, "no return before the loop" if not rets else "early return before the loop (line %s)" % rets[0].line, f, 'D7')
+
+def _decoder_table (ctx, repo):
+  """both framing loops index one table with the header's type byte: it must hold, at index t, the decoder of message type t
+  for every registered type (evaluated on a three-entry sample registry)"""
+  um = repo.mod('openflow.util'); f = um.funcs.get('make_type_to_unpacker_table')
+  if f is None: raise AnalysisError("openflow.util.make_type_to_unpacker_table vanished")
+  ctx.analysed(f)
+  g = q.cfg_of(f)
+  reg = {0: q.Rec(unpack_new='dec0'), 1: q.Rec(unpack_new='dec1'), 2: q.Rec(unpack_new='dec2')}
+  is_reg = lambda e: isinstance(e, ast.Attribute) and e.attr == '_message_type_to_class'
+  outs = set()
+  for p_, e_ in q.paths_under(repo, um, g, q.Env({}, [(is_reg, reg)]), g.entry, [n for n in g.nodes if n.kind == 'return'], None, limit=40):
+    try: v = q.eval_env2(repo, um, p_[-1].ast.value, e_, None)
+    except Exception: v = '?'
+    try: outs.add(tuple(v) if isinstance(v, (list, tuple)) else '?')
+    except Exception: outs.add('?')
+  if not outs or '?' in outs:
+    ctx.undecided('R-REG', f, "decoder table holds the decoder of type t at index t for every registered type", "table construction not evaluable on the sample registry", f, 'D3')
+  else:
+    good = outs == {('dec0', 'dec1', 'dec2')}
+    ctx.ob('R-REG', f, "decoder table holds the decoder of type t at index t for every registered type", good, "registry {0,1,2} -> [dec0, dec1, dec2]" if good else
+           "for a registry with types 0, 1, 2 the table is %s: a message of the missing/shifted type is framed but cannot be decoded (IndexError / wrong class) and everything behind it in the buffer is lost" % sorted(outs), f, 'D3')
+
+def _caller_contract (ctx, repo, f, L):
+  """D8: a read that merely found no complete message yet must not look like a failure to whoever called it: the value
+  returned on the normal exit, put into each caller's test of the call, must not lead to that connection being closed"""
+  g = L.g; mod = f.module
+  wh = L.head.stmt if getattr(L.head, 'stmt', None) is not None else None
+  if not isinstance(wh, ast.While): return
+  test_nodes = set(id(x) for x in ast.walk(wh.test))
+  # scenario: nothing complete in the buffer -> the loop test fails at once
+  loop_off = [((lambda e, t=test_nodes: id(e) in t and not isinstance(e, ast.Constant)), False)]
+  rets = [n for n in g.reachable(L.after, exc=False) | {L.after} if n.kind == 'return']
+  vals = set()
+  for p_, e_ in q.paths_under(repo, mod, g, q.Env({}, loop_off), g.entry, rets, f.cls, limit=80):
+    rn = p_[-1]
+    if rn.ast.value is None: vals.add(None); continue
+    try: v = q.eval_env2(repo, mod, rn.ast.value, e_, f.cls)
+    except Exception: v = '?'
+    try: hash(v)
+    except TypeError: v = '?'
+    vals.add('?' if v is q.OPAQUE else v)
+  fns = list(mod.funcs.values()) + [m_ for c in mod.classes.values() for m_ in c.methods.values()]
+  n_sites = 0
+  for h in fns:
+    if h is f: continue
+    def is_call (e):
+      return isinstance(e, ast.Call) and call_name(e) == f.name and not e.args and not e.keywords and isinstance(e.func, ast.Attribute) \
+             and not any(w in norm(e.func.value).lower() for w in ('sock', 'file', 'pipe', 'stream'))
+    if not any(is_call(c) for c in calls_in(h.node)): continue
+    gh = q.cfg_of(h)
+    for cn in [n for n in gh.nodes if n.kind == 'cond' and any(is_call(x) for x in ast.walk(n.ast))]:
+      call = [x for x in ast.walk(cn.ast) if is_call(x)][0]
+      recv = norm(call.func.value)
+      n_sites += 1
+      if '?' in vals or not vals:
+        ctx.undecided('R-AGREE', f, "an incomplete message is not reported to the caller as a failure", "value returned on the normal exit not evaluable (%s)" % sorted(map(repr, vals)), (mod, cn.ast), 'D8'); continue
+      bad_ = []
+      for v in vals:
+        try: b = bool(q.eval_env2(repo, mod, cn.ast, q.Env({}, [(is_call, v)]), h.cls))
+        except Exception: b = None
+        if b is None: bad_ = None; break
+        nxt = [m for m, l in cn.succ if l is b]
+        heads = [x for x in gh.nodes if x.kind in ('loop', 'for', 'while') or any(l == 'back' for _, l in x.pred)]
+        r = gh.reachable(nxt, avoid=heads, exc=False) | set(nxt)
+        closes = [x for x in r for c in q.node_calls(x) if call_name(c) in ('close', 'disconnect', 'remove') and (norm(c.func.value) == recv or any(norm(a) == recv for a in c.args))] if nxt else []
+        if closes: bad_.append((v, closes[0]))
+      if bad_ is None:
+        ctx.undecided('R-AGREE', f, "an incomplete message is not reported to the caller as a failure", "caller's test `%s` not evaluable" % norm(cn.ast), (mod, cn.ast), 'D8')
+      else:
+        ctx.ob('R-AGREE', f, "an incomplete message is not reported to the caller as a failure", not bad_,
+               "normal exit returns %s; `%s` in %s keeps the connection" % (sorted(map(repr, vals)), norm(cn.ast), h.qual) if not bad_ else
+               "when a read ends inside a message %s returns %r, and %s tests `%s`, which then reaches `%s`: the connection is dropped because a message arrived in two pieces"
+               % (f.name, bad_[0][0], h.qual, norm(cn.ast), bad_[0][1].text(40)), (mod, cn.ast), 'D8')
+  return n_sites
 
 def _reach_avoid (g, start, avoid, restrict):
   seen = set([start]); st = [start]; avoid = set(avoid)
